@@ -1013,6 +1013,12 @@ func (x *Exec) havocModifies(st *State, mods []string) {
 			if m == k {
 				return true
 			}
+		}
+		if x.isImmutableKey(k) || x.isStableKey(k) {
+			// only an exact mention havocs a stable/immutable field
+			return false
+		}
+		for _, m := range mods {
 			if strings.HasSuffix(m, ".*") && strings.HasPrefix(k, m[:len(m)-1]) {
 				return true
 			}
